@@ -111,7 +111,7 @@ impl StunPacketDecoder {
 //@rules R5
 //@prefix
 #[verifier::rlimit(40)]
-//@before "match vx_self.expected_size"
+//@before "match vx_self"
     proof {
         axiom_slice_len_limit(data);
         axiom_vec_len_limit(&vx_self.buffer);
